@@ -12,8 +12,10 @@
 // TRAFFIC EVENTS (what packets do to the map: refresh last_seen of a normal entry; of both legs of a NAT
 // pair when the packet hits the forward key; of the reverse leg only when it hits the reverse key),
 // biased towards entries that were just queued for deletion, and only then runs the cleaner.  Traffic is
-// also applied while the scanner is iterating (on its live look-ups of reverse entries) and between
-// scans.
+// also applied while the scanner is iterating -- the conntrack map is iterated LIVE in a PRNG order
+// (ctGetHook.Iter), so an entry visited later shows what packets did since the iteration began; in
+// particular a reply packet may refresh a reverse entry right after its forward entry was judged --
+// on the scanner's live look-ups of reverse entries, and between scans.
 //
 // Oracles
 //
@@ -327,6 +329,65 @@ func (m *ctGetHook) Get(k []byte) ([]byte, error) {
 		}
 	}
 	return m.Map.Get(k)
+}
+
+// Iter replaces mock.Map's snapshot iteration with a LIVE one, as the kernel map behaves: the keys
+// present at the start are visited in a PRNG order (in half of the NAT pairs the forward entry is
+// forced before its reverse entry, the order in which one half can be judged before a packet
+// refreshes the other), every visit reads the entry's CURRENT value, entries deleted meanwhile are
+// skipped, and -- native cases -- packets arrive between visits: most pointedly a reply packet on the
+// reverse key right after the forward entry of that pair was visited.
+func (m *ctGetHook) Iter(f maps.IterCallback) error {
+	w := m.w
+	r := w.c.R
+	m.Map.IterCount++
+	if m.Map.IterErr != nil {
+		return m.Map.IterErr
+	}
+	keys := sortedKeys(m.Map.Contents)
+	r.Shuffle(len(keys), func(i, j int) { keys[i], keys[j] = keys[j], keys[i] })
+	pos := make(map[string]int, len(keys))
+	for i, k := range keys {
+		pos[k] = i
+	}
+	for _, k := range append([]string(nil), keys...) {
+		v := w.val([]byte(m.Map.Contents[k]))
+		if v.Type() != conntrack.TypeNATForward || r.Intn(2) == 0 {
+			continue
+		}
+		rk := string(v.ReverseNATKey().AsBytes())
+		if pr, ok := pos[rk]; ok && pr < pos[k] {
+			pf := pos[k]
+			keys[pr], keys[pf] = k, rk
+			pos[k], pos[rk] = pr, pf
+		}
+	}
+	for _, k := range keys {
+		vs, ok := m.Map.Contents[k]
+		if !ok {
+			continue // deleted since the iteration started (cleaner batch)
+		}
+		w.c.Count("live_iteration_visits", 1)
+		if f([]byte(k), []byte(vs)) == maps.IterDelete {
+			delete(m.Map.Contents, k)
+		}
+		if !w.native || !w.inScan {
+			continue
+		}
+		if v := w.val([]byte(vs)); v.Type() == conntrack.TypeNATForward && r.Intn(3) == 0 {
+			rk := string(v.ReverseNATKey().AsBytes())
+			if _, present := m.Map.Contents[rk]; present {
+				w.c.Count("reply_packet_right_after_forward_visit", 1)
+				if pos[rk] > pos[k] {
+					w.c.Count("reply_packet_before_reverse_visit", 1)
+				}
+				w.traffic("mid-scan", rk)
+			}
+		} else if r.Intn(15) == 0 {
+			w.traffic("mid-scan", keys[r.Intn(len(keys))])
+		}
+	}
+	return nil
 }
 
 // ---------------------------------------------------------------------------------------------
@@ -797,7 +858,7 @@ func main() {
 			"(IPv4 2/3, IPv6 1/3) with traffic injected between judgement and cleaning, during the iteration and between scans, 1 of 4 the repo's mock cleaner without in-window traffic; every case is non-trivial; " +
 			"distinct by (ip version, cleaner, per-scan sizes and removals, timeouts)",
 		Assumptions: []string{
-			"maps are felix/bpf/mock.Map: Iter works on a snapshot taken at its start (an early-read interleaving of the kernel's batched iteration), no LRU eviction is modelled",
+			"maps are felix/bpf/mock.Map with its snapshot Iter replaced by a live iteration in PRNG order (current values at each visit, forward entry before reverse entry forced in half of the NAT pairs, packets injected between visits); no LRU eviction is modelled",
 			"native cases run the tree's conntrack_cleanup.c compiled for x86-64 with ASan/UBSan against user-space map helpers (/verif/cprobe/ctmaps.c: hash maps, exact-size elements, RCU-like deferred free, single CPU); " +
 				"BPF inline asm (not on the cleaner's path) is replaced by traps; the BPF verifier and JIT are not involved",
 			"the timeout table is written from timeouts.Timeouts and the statement (plus the 2-minute rule for a recorded reset); with several applicable timeouts safety uses the smallest, liveness the largest",
@@ -813,7 +874,7 @@ func main() {
 		Setup: setup,
 		Run:   run,
 		Floors: map[string]int64{"scans": 3000, "cleaner_runs": 2000, "cleaner_runs_native": 1500, "cleaner_runs_mock": 400, "removals_judged": 5000,
-			"removals_judged_nat-forward": 500, "removals_judged_nat-reverse": 500, "traffic_window": 1000, "traffic_mid-scan": 100, "liveness_confirmed": 500,
+			"removals_judged_nat-forward": 500, "removals_judged_nat-reverse": 500, "traffic_window": 1000, "traffic_mid-scan": 100, "reply_packet_before_reverse_visit": 200, "live_iteration_visits": 20000, "liveness_confirmed": 500,
 			"gen_nat_pair_equal_timestamps": 300},
 	})
 }
